@@ -631,13 +631,14 @@ Lemma rvi_read_bs k sx h m sh : Forall byte sx -> (forall t s2, sx <> 3 :: t :: 
     (k < 0 -> match Va.va_read false None sx with Ok (_, sM) => st = SBDF_OK /\ s' = sM | Err e => st = e end) /\
     ((st = SBDF_OK /\ sh' = VCell L 0 /\ Forall byte s' /\ exists blk newb, h' = h ++ Some blk :: newb /\
         forall hp : heap, List.length hp = L -> va_rel m' (hp ++ Some blk :: newb) L (hp ++ None :: nones (List.length newb))) \/ (st < 0 /\ exists j, h' = h ++ nones j)) /\
-    (st = SBDF_OK -> match Va.va_read false None sx with Ok (_, sM) => s' = sM | Err _ => False end).
+    (st = SBDF_OK -> match Va.va_read false None sx with Ok (_, sM) => s' = sM | Err _ => False end) /\
+    (k < 0 -> st = SBDF_OK -> k' = k).
 Proof.
   intros Hs H3 L. unfold Va.va_read, rd_bind, vt_read.
   destruct sx as [|e s1].
   { (* no encoding byte *)
     pose proof (read_int8_bs2 bv k h m o fv (VPtr ROut 0) VUndef VUndef [] I I Hs) as R8. cbv iota in R8.
-    exists SBDF_ERROR_IO. eexists (Build_rvl _ _ _ _ _ _ _ _ _). do 5 eexists. split; [|split; [exists []; now rewrite app_nil_r|split; [intros _; reflexivity|split; [right; split; [reflexivity|exists 0%nat; cbn; now rewrite app_nil_r]|intros X; cbv in X; discriminate X]]]].
+    exists SBDF_ERROR_IO. eexists (Build_rvl _ _ _ _ _ _ _ _ _). do 5 eexists. split; [|split; [exists []; now rewrite app_nil_r|split; [intros _; reflexivity|split; [right; split; [reflexivity|exists 0%nat; cbn; now rewrite app_nil_r]|split; [intros X; cbv in X; discriminate X|intros _ X; cbv in X; discriminate X]]]]].
     cbn [fbody prog_sbdf_read_valuearray_int]. unrv.
     eapply bsE_seq; [eapply bsE_decl0; evw; reflexivity|]. eapply bsE_seq; [eapply bsE_decl0; evw; reflexivity|]. eapply bsE_seq; [eapply bsE_decl0; evw; reflexivity|].
     eapply bsE_seq_ret. eapply bsE_seq; [eapply bsE_call; [reflexivity|evw; reflexivity|reflexivity|exact R8|unfold rd8s, fr; evw; reflexivity]|].
@@ -646,7 +647,7 @@ Proof.
   { (* no type byte *)
     pose proof (read_int8_bs2 bv k h m o fv (VPtr ROut 0) VUndef VUndef [e] I I Hs) as R8. cbv iota in R8.
     pose proof (vt_read_bs2 bv k h m o fv (VPtr ROut 0) VUndef VUndef [] I I Hs1) as VT. cbv iota in VT. destruct VT as (e' & c' & VT).
-    exists SBDF_ERROR_IO. eexists (Build_rvl _ _ _ _ _ _ _ _ _). do 5 eexists. split; [|split; [exists []; now rewrite app_nil_r|split; [intros _; reflexivity|split; [right; split; [reflexivity|exists 0%nat; cbn; now rewrite app_nil_r]|intros X; cbv in X; discriminate X]]]].
+    exists SBDF_ERROR_IO. eexists (Build_rvl _ _ _ _ _ _ _ _ _). do 5 eexists. split; [|split; [exists []; now rewrite app_nil_r|split; [intros _; reflexivity|split; [right; split; [reflexivity|exists 0%nat; cbn; now rewrite app_nil_r]|split; [intros X; cbv in X; discriminate X|intros _ X; cbv in X; discriminate X]]]]].
     cbn [fbody prog_sbdf_read_valuearray_int]. unrv.
     eapply bsE_seq; [eapply bsE_decl0; evw; reflexivity|]. eapply bsE_seq; [eapply bsE_decl0; evw; reflexivity|]. eapply bsE_seq; [eapply bsE_decl0; evw; reflexivity|].
     eapply bsE_seq; [eapply bsE_seq; [eapply bsE_call; [reflexivity|evw; reflexivity|reflexivity|exact R8|unfold rd8s, fr; evw; reflexivity]|eapply bsE_if; [evw; reflexivity|reflexivity|apply bsE_skip]]|].
@@ -658,7 +659,7 @@ Proof.
     assert (k = 0) by lia. subst k.
     pose proof (read_int8_bs2 bv 0 h m o fv (VPtr ROut 0) VUndef VUndef (e :: t :: s2) I I Hs) as R8. cbv iota in R8.
     pose proof (vt_read_bs2 bv 0 h m o fv (VPtr ROut 0) VUndef VUndef (t :: s2) I I Hs1) as VT. cbv iota in VT. destruct VT as (e' & VT).
-    exists SBDF_ERROR_OUT_OF_MEMORY. eexists (Build_rvl _ _ _ _ _ _ _ _ _). do 5 eexists. split; [|split; [exists []; now rewrite app_nil_r|split; [intros Hk; lia|split; [right; split; [reflexivity|exists 0%nat; cbn; now rewrite app_nil_r]|intros X; cbv in X; discriminate X]]]].
+    exists SBDF_ERROR_OUT_OF_MEMORY. eexists (Build_rvl _ _ _ _ _ _ _ _ _). do 5 eexists. split; [|split; [exists []; now rewrite app_nil_r|split; [intros Hk; lia|split; [right; split; [reflexivity|exists 0%nat; cbn; now rewrite app_nil_r]|split; [intros X; cbv in X; discriminate X|intros _ X; cbv in X; discriminate X]]]]].
     cbn [fbody prog_sbdf_read_valuearray_int]. unrv.
     eapply bsE_seq; [eapply bsE_decl0; evw; reflexivity|]. eapply bsE_seq; [eapply bsE_decl0; evw; reflexivity|]. eapply bsE_seq; [eapply bsE_decl0; evw; reflexivity|].
     eapply bsE_seq; [eapply bsE_seq; [eapply bsE_call; [reflexivity|evw; reflexivity|reflexivity|exact R8|unfold rd8s, fr; evw; reflexivity]|eapply bsE_if; [evw; reflexivity|reflexivity|apply bsE_skip]]|].
@@ -672,7 +673,10 @@ Proof.
   destruct (e =? 1) eqn:E1.
   { assert (e = 1) by lia. subst e.
     destruct (rvi_read_plain bv o rf rp fo po (dec k) t s2 h m Hs2) as (st & l' & k' & s' & h' & m' & B & Pf & MT & Out & PP). fold L in B, Out.
-    exists st, l', (VCell L 0), k', s', h', m'. split; [apply rvi_read_pre; [exact Hs|exact Hk|exact B]|]. split; [exact Pf|]. split; [|split].
+    exists st, l', (VCell L 0), k', s', h', m'. split; [apply rvi_read_pre; [exact Hs|exact Hk|exact B]|]. split; [exact Pf|].
+    assert (KK : k < 0 -> st = SBDF_OK -> k' = k).
+    { intros Hk0 E. specialize (MT ltac:(rewrite (Dk Hk0); exact Hk0)). destruct (Obj.obj_read_arr false None t s2) as [[ob sM]|eM]; [destruct MT as (_ & _ & ->); apply Dk; exact Hk0|specialize (PP E); contradiction]. }
+    split; [|split; [|split; [|exact KK]]].
     - intros Hk0. specialize (MT ltac:(rewrite (Dk Hk0); exact Hk0)). unfold rd_bind, rret.
       destruct (Obj.obj_read_arr false None t s2) as [[ob sM]|eM]; [destruct MT as (-> & -> & _); split; reflexivity|exact MT].
     - destruct Out as [(-> & Hb' & newb & -> & _ & VR)|(Hn & j & ->)]; [left; split; [reflexivity|split; [reflexivity|split; [exact Hb'|eexists; eexists; split; [reflexivity|exact VR]]]]|right; split; [exact Hn|exists (S j); reflexivity]].
@@ -680,21 +684,27 @@ Proof.
   destruct (e =? 2) eqn:E2.
   { assert (e = 2) by lia. subst e.
     destruct (rvi_read_rle bv o rf rp fo po (dec k) t s2 h m Hs2) as (st & l' & k' & s' & h' & m' & B & Pf & MT & Out & PP). fold L in B, Out.
-    exists st, l', (VCell L 0), k', s', h', m'. split; [apply rvi_read_pre; [exact Hs|exact Hk|exact B]|]. split; [exact Pf|]. split; [|split].
-    - intros Hk0. specialize (MT ltac:(rewrite (Dk Hk0); exact Hk0)). clear PP. unfold rd_bind, rret, rfail in *.
+    exists st, l', (VCell L 0), k', s', h', m'. split; [apply rvi_read_pre; [exact Hs|exact Hk|exact B]|]. split; [exact Pf|].
+    assert (KK : k < 0 -> st = SBDF_OK -> k' = k).
+    { intros Hk0 E. specialize (MT ltac:(rewrite (Dk Hk0); exact Hk0)). specialize (PP E). unfold rd_bind, rret, rfail in *.
+      destruct (read_int32 false s2) as [[rows s3]|eR]; [|contradiction]. destruct (rows <? 0); [contradiction|].
+      destruct (Obj.obj_read_arr false None SBDF_BYTETYPEID s3) as [[ob1 sM1]|eM1]; [|contradiction].
+      destruct (Obj.obj_read_arr false None t sM1) as [[ob2 sM2]|eM2]; [destruct MT as (_ & _ & ->); apply Dk; exact Hk0|contradiction]. }
+    split; [|split; [|split; [|exact KK]]].
+    - intros Hk0. specialize (MT ltac:(rewrite (Dk Hk0); exact Hk0)). clear PP KK. unfold rd_bind, rret, rfail in *.
       destruct (read_int32 false s2) as [[rows s3]|eR]; [|exact MT]. destruct (rows <? 0); [exact MT|].
       destruct (Obj.obj_read_arr false None SBDF_BYTETYPEID s3) as [[ob1 sM1]|eM1]; [|exact MT].
       destruct (Obj.obj_read_arr false None t sM1) as [[ob2 sM2]|eM2]; [destruct MT as (-> & -> & _); split; reflexivity|exact MT].
     - destruct Out as [(-> & Hb' & rows & newb1 & newb2 & _ & -> & _ & _ & VR)|(Hn & j & ->)]; [|right; split; [exact Hn|exists (S j); reflexivity]].
       left. split; [reflexivity|]. split; [reflexivity|]. split; [exact Hb'|]. eexists; eexists. split; [reflexivity|]. rewrite app_length. exact VR.
-    - intros X. specialize (PP X). clear MT. unfold rd_bind, rret, rfail in *.
+    - intros X. specialize (PP X). clear MT KK. unfold rd_bind, rret, rfail in *.
       destruct (read_int32 false s2) as [[rows s3]|eR]; [|exact PP]. destruct (rows <? 0); [exact PP|].
       destruct (Obj.obj_read_arr false None SBDF_BYTETYPEID s3) as [[ob1 sM1]|eM1]; [|exact PP].
       destruct (Obj.obj_read_arr false None t sM1) as [[ob2 sM2]|eM2]; exact PP. }
   destruct (e =? 3) eqn:E3; [exfalso; assert (e = 3) by lia; subst e; exact (H3 t s2 eq_refl)|].
   unfold byte in He. destruct (rvi_read_unknown (dec k) e t s2 h m He ltac:(lia) ltac:(lia) ltac:(lia)) as (l' & B). fold L in B.
   exists SBDF_ERROR_UNKNOWN_VALUEARRAY_ENCODING, l', (VCell L 0), (dec k), s2, (h ++ [None]), m. split; [apply rvi_read_pre; [exact Hs|exact Hk|exact B]|].
-  split; [exists []; now rewrite app_nil_r|]. split; [intros _; reflexivity|split; [right; split; [reflexivity|exists 1%nat; reflexivity]|intros X; cbv in X; discriminate X]].
+  split; [exists []; now rewrite app_nil_r|]. split; [intros _; reflexivity|split; [right; split; [reflexivity|exists 1%nat; reflexivity]|split; [intros X; cbv in X; discriminate X|intros _ X; cbv in X; discriminate X]]].
 Qed.
 End VaRead.
 
@@ -716,7 +726,7 @@ Theorem va_read_source rf rp fo po k sx m h : Forall byte sx -> (forall t s2, sx
     (st = SBDF_OK -> match Va.va_read false None sx with Ok (_, sM) => lookup strm_var (vars fin) = Some (VBytes sM) | Err _ => False end).
 Proof.
   intros Hs H3.
-  destruct (rvi_read_bs (VInt 0) [] rf rp fo po k sx h m VNull Hs H3) as (st & l' & sh' & k' & s' & h' & m' & B & Pf & MT & Out & PP).
+  destruct (rvi_read_bs (VInt 0) [] rf rp fo po k sx h m VNull Hs H3) as (st & l' & sh' & k' & s' & h' & m' & B & Pf & MT & Out & PP & _).
   destruct l'. revert B. unrv. intros B.
   destruct Out as [(-> & -> & _ & blk & newb & -> & VR)|(Hneg & j & ->)].
   - assert (BV : bsE prog_env (fbody prog_sbdf_va_read) (vrd (VPtr rf fo) (VPtr rp po) VUndef VUndef (VInt 0) k sx h m [])
